@@ -68,6 +68,16 @@ Theorem checked_name_records_are_canonical : forall keys, name_order_ok keys = t
 Proof. exact name_order_ok_canonical. Qed.
 Print Assumptions checked_name_records_are_canonical.
 
+(* the model's sort loses and invents nothing, orders the records as the name table requires, and is idempotent *)
+Theorem name_record_sort_is_an_ordered_permutation : forall keys,
+  sorted name_key key_leb (sort_keys keys) /\ Permutation keys (sort_keys keys).
+Proof. exact sort_keys_sorted_permutation. Qed.
+Print Assumptions name_record_sort_is_an_ordered_permutation.
+
+Theorem name_record_sort_idempotent : forall keys, sort_keys (sort_keys keys) = sort_keys keys.
+Proof. exact sort_keys_idempotent. Qed.
+Print Assumptions name_record_sort_idempotent.
+
 (* the same for any collection sorted by a total order on the way out (kerning pairs, mark classes, ...) *)
 Theorem sorting_by_a_total_order_erases_arrival_order : forall (A : Type) (leb : A -> A -> bool),
   (forall a b, leb a b = true \/ leb b a = true) ->
